@@ -101,6 +101,15 @@ T = {
  "C15-5": ("C15", "d77d3e0", "non-positive limit, cached local AND remote heads of concurrent chains, restart + Load", ["C15"], "VIOLATION (native replay) by VerifC15Load"),
  "C17-5": ("C17", "d77d3e0", "two overlapping writers on a store with a materialised index (second writer skips its index refresh)", ["C17"], "VIOLATION (interpreter-schedule, P=1) by VerifC17Concurrent (view oracle)"),
  "C19-5": ("C19", "d77d3e0", "replication of a multi-writer log with more entries than its largest clock", ["C19"], "VIOLATION (native replay) by VerifC19History / VerifSysTwoDBs"),
+ # round 9 (base d77d3e0)
+ "C01-6": ("C01", "d77d3e0", "view built by a partial Load / snapshot where a key's latest operation is a DEL, then older entries arrive incrementally (LoadMoreFrom / replication)", ["C01"], "VIOLATION (native replay) by VerifC01KV / VerifC01Docs"),
+ "C05-6": ("C05", "d77d3e0", "concurrent cached heads + a limited load + a CLEAN close; or an older second handle on the same directory closing last", ["C05"], "VIOLATION (native replay) by VerifC05Sessions"),
+ "C06-6": ("C06", "d77d3e0", "the caller edits the map All() returned", ["C06"], "VIOLATION (native replay) by VerifC06Replay (caller-edited-the-map)"),
+ "C07-6": ("C07", "d77d3e0", "two document keys differing only by case, one the lower-cased search key; Get case-insensitive, not partial", ["C07"], "VIOLATION (native replay) by VerifC07Get"),
+ "C14-6": ("C14", "d77d3e0", "one ManifestParams / options value reused for Open or Create of one database and then Create of another with a different write list", ["C14"], "VIOLATION (native replay) by VerifC14Reuse"),
+ "C16-6": ("C16", "d77d3e0", "a local write overlapping the index pass of a replicated batch (or the converse) and a subscriber that queries at once", ["C16"], "VIOLATION (interpreter-schedule) by VerifC16WriteDuringMerge"),
+ "C18-7": ("C18", "d77d3e0", "Close of the instance, one Open / Create on it (refused), then another Open or Close", ["C18"], "VIOLATION by VerifSysClose"),
+ "C20-6": ("C20", "d77d3e0", "one failed poll of the underlying Peers(), the peer still present at the next successful poll", ["C20"], "VIOLATION (native replay) by VerifC20PollError"),
 }
 for seed, (prop, base, needs, by, note) in T.items():
     d = os.path.join(V, "seeded", seed)
